@@ -18,7 +18,6 @@ var (
 	chans []chan int
 	gs    *js.Object
 	done  chan int
-	first *js.Object // first externalisation of identFn
 )
 
 func ch(i int) chan int {
@@ -57,6 +56,12 @@ func panicText(r interface{}) string {
 }
 
 func identFn(a int) int { return a + 1 }
+
+func identFn2(a int, s string) string { return s }
+
+func identFn3(a, b, c float64) (float64, bool) { return a + b + c, true }
+
+var firsts [3]*js.Object
 
 // doOp executes one operation; res is filled in as far as the operation got.
 func doOp(g, pc int, op *js.Object) (res *js.Object) {
@@ -108,7 +113,9 @@ func execOp(g, pc int, op *js.Object, res *js.Object) {
 	case "ident":
 		// the same Go function externalises to the same JavaScript function
 		js.Global.Set("identProbe", identFn)
-		res.Set("same", js.Global.Get("identProbe") == first)
+		js.Global.Set("identProbe2", identFn2)
+		js.Global.Set("identProbe3", identFn3)
+		res.Set("same", js.Global.Get("identProbe") == firsts[0] && js.Global.Get("identProbe2") == firsts[1] && js.Global.Get("identProbe3") == firsts[2])
 	case "ngo":
 		res.Set("n", runtime.NumGoroutine())
 	case "sel":
@@ -216,7 +223,9 @@ func main() {
 	done = make(chan int, gs.Length()+ncb)
 	if ncb > 0 {
 		js.Global.Set("identFirst", identFn)
-		first = js.Global.Get("identFirst")
+		js.Global.Set("identFirst2", identFn2)
+		js.Global.Set("identFirst3", identFn3)
+		firsts = [3]*js.Object{js.Global.Get("identFirst"), js.Global.Get("identFirst2"), js.Global.Get("identFirst3")}
 		for i := 0; i < ncb; i++ {
 			js.Global.Set("cb"+js.Global.Get("String").Invoke(i).String(), makeCallback(i, cbs.Index(i)))
 		}
